@@ -90,6 +90,11 @@ Definition homogeneous_b (bs : list iblob) : bool :=
   | b :: r => forallb (fun c => tpe_eqb (btpe c) (btpe b)) r
   end.
 
+(* what from_file alone can guarantee about an accepted header: contiguous layout and sizes *)
+Definition layout_b (bs : list iblob) (size : N) : bool :=
+  contiguous_b 0 bs &&
+  match hdr_pack_size bs with Some s => s =? size | None => false end.
+
 Definition describes_b (bs : list iblob) (size : N) : bool :=
   contiguous_b 0 bs && nodup_ids bs && homogeneous_b bs &&
   match hdr_pack_size bs with Some s => s =? size | None => false end.
